@@ -146,10 +146,17 @@ ST_CFG = {3: {"nids": 3, "owner": [1, 1, 0], "index": [1, 2, 1], "nvers": 2},
 def storage_histories(rep, nids, keep, name, max_hist=None):
     """Model-check SlabStorage over nids identifiers with edge emission; write the histories
     selected by keep(ops, key) into PARTS part files.  Returns (part files, count, total)."""
-    r, so = vlib.model_check("MC_SlabStorage.tla", "MC_SlabStorage_q.cfg", name, emit=True,
-                             consts={"EmitEdges": "TRUE", "NIds": nids})
-    rep.add_model("MC_SlabStorage NIds=%d Versions={1,2} MaxFaults=1 (closure)" % nids, r)
-    hdr = json.dumps({"cfg": ST_CFG[nids]})
+    return model_histories(rep, "MC_SlabStorage.tla", "MC_SlabStorage_q.cfg", {"EmitEdges": "TRUE", "NIds": nids},
+                           "MC_SlabStorage NIds=%d Versions={1,2} MaxFaults=1 (closure)" % nids,
+                           {"cfg": ST_CFG[nids]}, keep, name, max_hist)
+
+
+def model_histories(rep, module, cfg, consts, label, header, keep, name, max_hist=None, timeout=3600):
+    """Model-check a bounded configuration with edge emission; write the distinct emitted histories
+    selected by keep(ops, key) into PARTS part files.  Returns (part files, count, total)."""
+    r, so = vlib.model_check(module, cfg, name, emit=True, consts=consts, timeout=timeout)
+    rep.add_model(label, r)
+    hdr = json.dumps(header)
     files = [os.path.join(vlib.scratch(), "%s-h-%d.ndjson" % (name, k)) for k in range(PARTS)]
     fh = [open(f, "w") for f in files]
     for f in fh:
@@ -180,10 +187,27 @@ def storage_histories(rep, nids, keep, name, max_hist=None):
     return files, n, len(seen)
 
 
-def storage_stage(rep, stage, tcfg, hist_files, mode):
-    traces, sums = run_parts(["storage-run", "-mode", mode], hist_files, stage)
+def merge_stats(stats):
+    out = {}
+    for s in stats:
+        for k, v in s.items():
+            if isinstance(v, dict):
+                d = out.setdefault(k, {})
+                for kk, vv in v.items():
+                    d[kk] = d.get(kk, 0) + vv
+            else:
+                out[k] = max(out.get(k, 0), v)
+    return out
+
+
+def hist_stage(rep, stage, run_cmd, engine, trace_module, tcfg, hist_files, mode, what_prefix, sigfn=None, consts=None):
+    """Execute history part files with the harness, validate the traces, classify rejections."""
+    t0 = time.time()
+    traces, sums = run_parts(run_cmd + ["-mode", mode], hist_files, stage)
     nh = sum(s.get("histories", 0) for s in sums)
-    results = vlib.validate_traces(traces, "SlabStorageTrace.tla", tcfg, stage + "-tv")
+    t1 = time.time()
+    results = vlib.validate_traces(traces, trace_module, tcfg, stage + "-tv", consts=consts)
+    log("stage %s: %d histories, harness %.1fs, trace validation %.1fs" % (stage, nh, t1 - t0, time.time() - t1))
 
     def describe(res, rec, trace, why):
         part = int(re.search(r"-(\d+)$", res["dir"]).group(1))
@@ -191,33 +215,43 @@ def storage_stage(rep, stage, tcfg, hist_files, mode):
             lines = f.read().split("\n")
         hist = json.loads(lines[rec["t"]])
         cfg = json.loads(lines[0])["cfg"]
-        sig = "storage:%s:%s" % (rec["ev"], why)
-        what = "real PersistentSlabStorage diverges from SlabStorage at event %s (%s) after history of %d ops" % (rec["ev"], why, len(hist))
-        return sig, what, {"engine": "storage", "mode": mode, "cfg": cfg, "history": hist, "trace": trace}
+        sig = sigfn(rec, trace, why, hist) if sigfn else "%s:%s:%s" % (engine, rec["ev"], why)
+        what = "%s at event %s (rejected by %s) after a history of %d ops" % (what_prefix, rec["ev"], why, len(hist))
+        return sig, what, {"engine": "hist", "run_cmd": run_cmd, "mode": mode, "cfg": cfg, "history": hist, "trace": trace,
+                           "consts": consts}
 
-    def confirm(payload):
-        return storage_replay(payload)
-
-    nrec = handle_results(rep, results, "SlabStorageTrace.tla", tcfg, describe, confirm, stage)
+    nrec = handle_results(rep, results, trace_module, tcfg, describe, hist_replay, stage)
+    drift = sum(r.get("drift", 0) for r in results)
     rep.traces += nh
     rep.evaluations += nh
-    rep.stages[stage] = {"histories": nh, "records": nrec, "mode": mode, "trace_cfg": tcfg}
+    rep.stages[stage] = {"histories": nh, "records": nrec, "mode": mode, "trace_cfg": tcfg, "drift_edges": drift}
+    st = merge_stats([s.get("stats") for s in sums if s.get("stats")])
+    if st:
+        rep.stages[stage]["reached"] = st
+    if drift:
+        rep.note("%s: %d transitions differ from the layer-C transcription while layers A/B hold (model drift, not a verdict)" % (stage, drift))
     return nh
 
 
-def storage_replay(payload):
-    """Re-execute one storage history in a fresh process and validate it alone; True if rejected again."""
+def hist_replay(payload):
+    """Re-execute one history in a fresh process and validate it alone; True if rejected again."""
     d = os.path.join(vlib.scratch(), "replay-%d" % random.randrange(1 << 30))
     os.makedirs(d)
     hf = os.path.join(d, "h.ndjson")
     with open(hf, "w") as f:
         f.write(json.dumps({"cfg": payload["cfg"]}) + "\n" + json.dumps(payload["history"]) + "\n")
-    traces, _ = run_parts(["storage-run", "-mode", payload["mode"]], [hf], os.path.basename(d))
-    res = vlib.validate_traces(traces, payload["trace_module"], payload["trace_cfg"], os.path.basename(d) + "-tv")
+    traces, _ = run_parts(payload["run_cmd"] + ["-mode", payload["mode"]], [hf], os.path.basename(d))
+    res = vlib.validate_traces(traces, payload["trace_module"], payload["trace_cfg"], os.path.basename(d) + "-tv",
+                               consts=payload.get("consts"))
     for r in res:
         if "error" in r:
             raise Inconclusive(r["error"])
     return any(not r["ok"] for r in res)
+
+
+def storage_stage(rep, stage, tcfg, hist_files, mode):
+    return hist_stage(rep, stage, ["storage-run"], "storage", "SlabStorageTrace.tla", tcfg, hist_files, mode,
+                      "real PersistentSlabStorage diverges from SlabStorage")
 
 
 def storage_random_stage(rep, stage, tcfg, n, length, nids):
@@ -276,6 +310,49 @@ def storage_random_replay(payload):
     return any(not r["ok"] for r in res)
 
 
+def sim_histories(rep, module, cfg, consts, label, header, name, num, depth, workers=8, timeout=1800):
+    """TLC -simulate: random walks of the bounded model; each walk prints its history when it reaches
+    EmitDepth operations.  Returns (part files, count)."""
+    d = vlib.tlc_dir(name)
+    text = open(os.path.join(d, cfg)).read()
+    for k, v in dict(consts, EmitDepth=depth).items():
+        text, n = re.subn(r"(?m)^(\s*%s\s*=\s*).*$" % re.escape(k), lambda m: m.group(1) + str(v), text)
+        if n == 0:
+            raise Inconclusive("constant %s not in %s" % (k, cfg))
+    open(os.path.join(d, cfg), "w").write(text)
+    so = os.path.join(d, "stdout.txt")
+    per = max(1, (num + workers - 1) // workers)
+    r = vlib.run_tlc(d, module, cfg, workers=workers, timeout=timeout, stdout_file=so,
+                     extra=["-simulate", "num=%d" % per, "-depth", str(depth + 1), "-seed", str(rep.seed)], heap="4g")
+    if "Error:" in r.out:
+        raise Inconclusive("TLC simulation of %s/%s failed (defect of the MODEL):\n%s" % (module, cfg, r.out[-3000:]))
+    log("simulate %s %s: %.1fs" % (module, label, r.wall))
+    m = re.search(r"The number of states generated: (\d+)", r.out)
+    gen = int(m.group(1)) if m else 0
+    rep.models.append({"config": label + " (simulate, %d walks of depth %d)" % (num, depth), "states_generated": gen, "wall_s": round(r.wall, 1)})
+    rep.transitions += gen
+    files = [os.path.join(vlib.scratch(), "%s-h-%d.ndjson" % (name, k)) for k in range(PARTS)]
+    fh = [open(f, "w") for f in files]
+    for f in fh:
+        f.write(json.dumps(header) + "\n")
+    seen = set()
+    n = 0
+    for s in vlib.emitted_lines(so):
+        if s in seen or n >= num:
+            continue
+        seen.add(s)
+        fh[n % PARTS].write(s + "\n")
+        if n < 2:
+            rep.sample({"walk_prefix": json.loads(s)[:12], "walk_length": len(json.loads(s))})
+        n += 1
+    for f in fh:
+        f.close()
+    os.remove(so)
+    if n == 0:
+        raise Inconclusive("simulation emitted no walk")
+    return files, n
+
+
 def frac(key, num, den):
     return key % den < num
 
@@ -321,10 +398,62 @@ def check_C14(rep):
     storage_random_stage(rep, "c14-random", "SlabStorageTrace_C14.cfg", 140 if quick else 4000, 80 if quick else 150, 6 if quick else 8)
 
 
+# ---------------------------------------------------------------------------
+# array engine (ArraySeq / ArrayTree / TreeInv / ArrayTrace)
+
+def array_stages(rep, tcfg, what, sigprefix):
+    quick = rep.tier == "quick"
+    maxel = 5 if quick else 7
+    consts = {"EmitEdges": "TRUE", "MaxElems": maxel, "T": 256}
+    sel = (lambda ops, key: frac(key + rep.seed, 1, 2)) if quick else None
+    files, n, total = model_histories(rep, "MC_Array.tla", "MC_Array.cfg", consts,
+                                      "MC_Array T=256 Sizes={19,60,117,130} MaxElems=%d (all shapes, all ops incl. rejected)" % maxel,
+                                      {"cfg": {"T": 256}}, sel, sigprefix + "-mc")
+    rep.exhaustive = not quick
+    rep.distinct.update(range(n))
+    hist_stage(rep, sigprefix + "-edges", ["array-run"], "array", "ArrayTrace.tla", tcfg, files, "edge", what)
+    rep.stages[sigprefix + "-edges"]["selected_of_distinct_histories"] = [n, total]
+    walks = [(256, "{19, 60, 117, 130}", 24 if quick else 300, 200 if quick else 500),
+             (512, "{30, 120, 245, 300}", 12 if quick else 200, 300 if quick else 700)]
+    if not quick:
+        walks += [(1024, "{40, 250, 501, 700}", 100, 900), (257, "{19, 61, 118, 131}", 100, 400)]
+    for (T, sizes, num, depth) in walks:
+        nm = "%s-sim%d" % (sigprefix, T)
+        wf, wn = sim_histories(rep, "MC_Array.tla", "MC_Array_sim.cfg",
+                               {"T": T, "Sizes": sizes, "WithReads": "FALSE", "AllowPop": "FALSE", "MaxElems": 100000,
+                                "GrowUntil": depth // 3, "ShrinkFrom": depth - depth // 3 - 10},
+                               "MC_Array T=%d Sizes=%s" % (T, sizes), {"cfg": {"T": T}}, nm, num, depth)
+        base = len(rep.distinct)
+        rep.distinct.update(range(base, base + wn))
+        hist_stage(rep, nm, ["array-run"], "array", "ArrayTrace.tla", tcfg, wf, "full", what)
+
+
+def check_C01(rep):
+    rep.rule = ("histories = (a) every transition of the TLC state graph of the array algorithm (all shapes up to MaxElems, every "
+                "insert/set/remove/get/pop position incl. out-of-range) and (b) TLC-simulated growth walks at several slab sizes, "
+                "replayed into the real Array; each recorded call must be explained by the plain-sequence model (results, previous "
+                "elements, count, type, root id, error class) and the observed slab forest must flatten to the model sequence")
+    rep.assumptions += ["elements are strings of exact encoded size carrying an id; values above the inline limit become separate slabs through the library's own path"]
+    array_stages(rep, "ArrayTrace_C01.cfg", "real Array diverges from the plain-sequence model", "c01")
+
+
+def check_C05(rep):
+    rep.rule = ("(a) Thresholds lemmas checked by TLC for all 32 513 legal slab sizes; (b) the layer-C array algorithm preserves "
+                "well-formedness in every reachable shape (TLC invariant); (c) the slab forest projected from the real slabs after "
+                "EVERY replayed operation must satisfy TreeInv (size band, element limits, root index slab >= 2 children, header "
+                "copies, count sums, sibling links); content is adopted, so only structural facts are judged")
+    d = vlib.tlc_dir("c05-thresholds")
+    r = vlib.run_tlc(d, "MC_Thresholds.tla", "MC_Thresholds.cfg", workers=4, timeout=600)
+    if not r.ok:
+        raise Inconclusive("Thresholds lemmas failed in the model: " + r.out[-2000:])
+    rep.add_model("MC_Thresholds: all legal slab sizes 256..32768", r)
+    array_stages(rep, "ArrayTrace_C05.cfg", "real Array slab tree violates well-formedness", "c05")
+
+
 def replay(rep, path):
     payload = json.load(open(path))
     eng = payload.get("engine")
-    fn = {"storage": storage_replay, "storage-random": storage_random_replay}.get(eng)
+    fn = {"hist": hist_replay, "storage-random": storage_random_replay}.get(eng)
     if fn is None:
         raise Inconclusive("unknown engine in replay file: %s" % eng)
     if fn(payload):
@@ -337,6 +466,8 @@ def replay(rep, path):
 
 
 CHECKS = {
+    "C01": check_C01,
+    "C05": check_C05,
     "C14": check_C14,
     "C15": check_C15,
 }
